@@ -9,22 +9,18 @@ def main(argv=None):
     ck = Check("C15", argv, level="proof")
     res = world.run_functions(ck, ["proxy"], FUNCS, timeout=20 if ck.tier == "quick" else 60, hooks_mod="contracts.proxy")
     world.report(ck, res)
-    # installation condition (BaseWSGIServer.__init__): structural obligation read from the AST
+    # installation condition: the first segment of the real BaseWSGIServer.__init__ (up to `if map is None:`) against a cut assertion
+    res2 = world.run_functions(ck, ["c15server"], ["server.BaseWSGIServer.__init__"], timeout=20)
+    world.report(ck, res2)
     import ast
     fn = ck.repo.find("server.BaseWSGIServer.__init__")
-    ck.under_contract("server.BaseWSGIServer.__init__", role="installation condition of the middleware (structural)")
-    ok = False
-    if fn is not None:
-        for n in ast.walk(fn):
-            if isinstance(n, ast.If) and "proxy_headers_middleware" in ast.unparse(n) :
-                cond = ast.unparse(n.test)
-                call = [c for c in ast.walk(n) if isinstance(c, ast.Call) and ast.unparse(c.func) == "proxy_headers_middleware"]
-                kws = {k.arg: ast.unparse(k.value) for c in call for k in c.keywords}
-                ok = (cond == "adj.trusted_proxy or adj.clear_untrusted_proxy_headers" and kws.get("trusted_proxy") == "adj.trusted_proxy"
-                      and kws.get("clear_untrusted") == "adj.clear_untrusted_proxy_headers" and kws.get("trusted_proxy_headers") == "adj.trusted_proxy_headers")
-    ck.ob("server.BaseWSGIServer.__init__/structural:middleware-installed-with-the-configured-trust-settings", "discharged" if ok else "undecided", backend="ast",
-          clause="application is wrapped iff trusted_proxy or clear_untrusted_proxy_headers, with the adjustments passed through unchanged",
-          detail=None if ok else {"reason": "installation site not recognised"})
+    stores = [n.lineno for n in ast.walk(fn) if isinstance(n, ast.Name) and n.id == "application" and isinstance(n.ctx, ast.Store)] if fn else []
+    cut_line = next((st.lineno for st in fn.body if isinstance(st, ast.If) and ast.unparse(st.test) == "map is None"), None) if fn else None
+    uses = [n for n in ast.walk(fn) if isinstance(n, ast.Assign) and ast.unparse(n.targets[0]) == "self.application" and ast.unparse(n.value) == "application"] if fn else []
+    ok = cut_line is not None and all(l < cut_line for l in stores) and len(uses) == 1
+    ck.ob("server.BaseWSGIServer.__init__/frame:application-not-rebound-after-the-installation-point", "discharged" if ok else "undecided", backend="ast",
+          clause="after `if map is None:` the local `application` is not assigned again and is what is stored in self.application",
+          detail=None if ok else {"reason": "the tail of the constructor re-binds `application` or does not store it; the segment contract does not cover that"})
     ck.trusted.extend(["environ is an arbitrary str->str mapping containing REMOTE_ADDR; the application is demonic (its received environ is snapshotted)",
                        "frame obligation: every write to environ on this path is a pop of one of the six HTTP_<proxy header> keys, so keys other than those checked are untouched too",
                        "pyvc, cvc5/z3"])
